@@ -265,7 +265,7 @@ class Sym:
         k = self.rt.generate_session_keys(sec)
         self.sess[k.key_forward] = (sec, sym)
 
-    def blob(self, data: bytes, unpack) -> str:
+    def blob(self, data: bytes, unpack, cand_sym=None) -> str:
         if data in self.blobs:
             return self.blobs[data]
         res = None
@@ -275,7 +275,7 @@ class Sym:
             try:
                 plain = self.rt.generate_session_keys(sec).decrypt_str(data, FORWARD)
                 lst = unpack(plain)
-                res = f"E/{sym}/[{','.join(str(self.static_of_bin(b)) for b in lst)}]"
+                res = f"E/{sym}/[{','.join(str((cand_sym or self.static_of_bin)(b)) for b in lst)}]"
                 break
             except Exception:
                 continue
@@ -511,8 +511,19 @@ class World:
         lst, _ = self.ser.unpack("varlenH-list", plain)
         return lst
 
+    def cand_sym(self, b: bytes) -> int:
+        """candidate key -> model symbol: a node's static key, 0 (`badKey`) if it cannot be parsed, else 9999"""
+        k = self.sym.static_of_bin(b)
+        if k:
+            return k
+        try:
+            self.nodes[0].overlay.crypto.key_from_public_bin(b)
+        except Exception:  # noqa: BLE001
+            return 0
+        return 9999
+
     def blob_s(self, data: bytes) -> str:
-        return self.sym.blob(data, self.unpack_cands)
+        return self.sym.blob(data, self.unpack_cands, self.cand_sym)
 
     def hop_s(self, hop) -> str:
         return f"{self.peer_sym(hop.peer)}@{self.sym.session(hop.keys) if hop.keys else '-'}"
@@ -672,6 +683,13 @@ class World:
                 ctx.oracle_fail(f"{site}:accepted-without-attempt", "hop accepted without any outstanding attempt",
                                 self.replay_of("accepted without attempt"))
                 continue
+            if att["kind"] == "create" and len(old) > 0:
+                # hop k > 1 must be reached THROUGH hop k-1 (extend); a first-hop CREATE goes out directly, in the clear
+                ctx.oracle_fail(f"{site}:later-hop-keyed-by-direct-create",
+                                f"circuit {cid} already had {len(old)} hop(s), yet the originator sent a first-hop CREATE "
+                                "straight to another peer and recorded its answer as the next hop: the hop list does "
+                                "not name a path (that peer talks to the originator directly, not through the hops "
+                                "listed before it)", self.replay_of("later hop keyed by a direct create"))
             if att["ident"] != p.identifier:
                 ctx.oracle_fail(f"{site}:accepted-wrong-identifier",
                                 f"answer with identifier {p.identifier} accepted while the outstanding attempt has "
@@ -1616,6 +1634,108 @@ async def sc_slow_join(ctx, rng, desc, hops, pos, variant):
         await w.close()
 
 
+async def sc_bad_candidates(ctx, rng, desc, hops, pos, variant):
+    """misbehaving hop `pos` (not the last): its answer is genuine but the CORRECTLY ENCRYPTED candidate list it offers
+    is unusable (unparseable keys / only excluded keys / empty), so the originator accepts the hop and then cannot
+    extend; afterwards every retry cache lifetime passes"""
+    w = await build_world(ctx, rng, desc)
+    try:
+        await start_circuit(w, hops)
+        n_created = [0]
+
+        async def on_msg(h: Held):
+            if h.kind == 3:
+                n_created[0] += 1
+                if n_created[0] == pos:
+                    cid, ident, key, auth, cands = w.parse_created(h.data)
+                    info = w.emitted_created.get(key)
+                    rk = w.responder_keys(info) if info else None
+                    sec = w.sym.sess.get(rk.key_forward, (None,))[0] if rk is not None else None
+                    if sec is None:
+                        return None
+                    bad = b"LibNaCLPK:" + bytes(rng.randrange(256) for _ in range(20))
+                    good = [n.my_peer.public_key.key_to_bin() for n in w.nodes[1:]]
+                    me = w.nodes[0].my_peer.public_key.key_to_bin()
+                    lst = {"bad-only": [bad, bad], "relays-then-bad": good[:2] + [bad, bad], "bad-relay": [bad] + good[3:4] * 2,
+                           "empty": [], "only-me": [me, me], "garbage-bytes": None}[variant]
+                    plain = bytes(rng.randrange(256) for _ in range(9)) if lst is None else w.ser.pack("varlenH-list", lst)
+                    enc = w.rt.generate_session_keys(sec).encrypt_str(plain, FORWARD)
+                    ctx.count("bad-candidates:" + variant)
+                    await w.deliver(h, data=w.build_created(cid, ident, key, auth, enc))
+                    return "handled"
+            return None
+        await run_fifo(w, 120, on_msg)
+        await w.advance(w.t_retry())
+        await run_fifo(w, 120)
+        await w.advance(w.t_retry())
+        await run_fifo(w, 120)
+        await w.finish()
+        return w
+    finally:
+        await w.close()
+
+
+async def sc_third_party_extend(ctx, rng, desc, order):
+    """a THIRD PARTY (another circuit owner using the same relay) names, in its own EXTEND, the key of peer P together
+    with the address of another node; the relay does not have P among the candidates it cached for that owner.  The
+    victim then builds relay -> P.  Nothing on the victim's path is altered."""
+    w = await build_world(ctx, rng, desc)
+    try:
+        r_idx = rng.choice([1, 2, 3])
+        exits = [i for i, fl in enumerate(w.flags) if w.tn.PEER_FLAG_EXIT_BT in fl]
+        p_idx = rng.choice(exits)
+        q_idx = rng.choice([i for i in range(1, len(w.nodes)) if i not in (r_idx, p_idx)])
+        a_idx = rng.choice([i for i in (1, 2, 3) if i not in (r_idx, q_idx)] or [i for i in (1, 2, 3) if i != r_idx])
+        rov = w.nodes[r_idx].overlay
+        P, R = w.nodes[p_idx].my_peer, w.nodes[r_idx].my_peer
+        from ipv8.peer import Peer
+
+        async def owner_circuit(idx, required_exit):
+            ov = w.nodes[idx].overlay
+            cid = ov._generate_circuit_id()
+
+            def mk():
+                circ = w.tn.Circuit(cid, 2, required_exit=required_exit)
+                ov.circuits[cid] = circ
+                ov.send_initial_create(circ, [R], 6)
+                return circ
+
+            def line(_):
+                return f"{idx} cc {cid} 2 {w.peer_sym(required_exit)} [{r_idx + 1}] {w.env_s(idx, cid)}"
+            w.track(idx, [cid])
+            return await w.api(mk, line)
+
+        async def third_party():
+            # the relay has not (yet) heard P's flags when the third party's circuit joins it
+            removed = [(peer, rov.candidates.pop(peer)) for peer in list(rov.candidates)
+                       if peer.public_key.key_to_bin() == P.public_key.key_to_bin()]
+            wrong = Peer(P.public_key, w.nodes[q_idx].endpoint.wan_address)
+            await owner_circuit(a_idx, wrong)
+            # deliver the third party's CREATE to the relay, then the relay learns P again
+            while w.pending and w.pending[0].kind == 2:
+                await w.deliver(w.pending.pop(0))
+            for peer, flags in removed:
+                rov.candidates[peer] = flags
+            ctx.count("third-party-extend:address-of-another-node")
+            await run_fifo(w, 80)
+
+        async def victim():
+            c = await owner_circuit(0, P)
+            await run_fifo(w, 80)
+            return c
+        if order == "third-party-first":
+            await third_party()
+            c = await victim()
+        else:
+            c = await victim()
+            await third_party()
+        final_honest_checks(w, [c], expect_ready=True)
+        await w.finish()
+        return w
+    finally:
+        await w.close()
+
+
 async def sc_cross(ctx, rng, desc, hops, variant):
     """two circuits built at once; the first answers are exchanged between them (circuit id only / id + identifier)"""
     w = await build_world(ctx, rng, desc)
@@ -1941,6 +2061,13 @@ def scenario_list(ctx: Ctx, tier: str):
             for v in ("none", "dup-while-suspended", "dup-reversed", "triple", "dup-after-resume", "dup-after-answer",
                       "refuse-then-accept"):
                 out.append({"k": "slow-join", "hops": hops, "pos": pos, "variant": v, "gated": True})
+        for pos in range(1, hops):
+            for v in ("bad-only", "relays-then-bad", "bad-relay", "empty", "only-me", "garbage-bytes"):
+                out.append({"k": "bad-candidates", "hops": hops, "pos": pos, "variant": v})
+        if hops == 2:
+            for order in ("third-party-first", "victim-first"):
+                for rep_ in range(2):
+                    out.append({"k": "third-party-extend", "order": order, "n": rep_})
         out.append({"k": "two-originators", "hops": hops, "shuffle": False})
         out.append({"k": "two-originators", "hops": hops, "shuffle": True})
         if hops > 1:
@@ -2017,6 +2144,10 @@ async def run_scenario(ctx, d: dict, sub_seed: int):
         return await sc_two_originators(ctx, rng, desc, d["hops"], d["shuffle"])
     if k == "slow-join":
         return await sc_slow_join(ctx, rng, desc, d["hops"], d["pos"], d["variant"])
+    if k == "bad-candidates":
+        return await sc_bad_candidates(ctx, rng, desc, d["hops"], d["pos"], d["variant"])
+    if k == "third-party-extend":
+        return await sc_third_party_extend(ctx, rng, desc, d["order"])
     if k == "id-squat":
         return await sc_id_squat(ctx, rng, desc, d["hops"], d["pos"], d["order"])
     if k == "replay-expired":
@@ -2104,8 +2235,10 @@ def run(ctx: Ctx):
 
 
 def search(ctx: Ctx, reason: str):
-    sc = [(d, ctx.rng.getrandbits(32)) for d in scenario_list(ctx, "thorough")]
-    sc += [({"k": "random", "rtd": [0, None][i % 2], "hidden": (i // 2) % 2 == 1}, ctx.rng.getrandbits(32)) for i in range(300)]
+    # a second pass over the enumeration with other seeds plus random schedules; sized so that a failing quick run stays
+    # under about three minutes also on a loaded machine
+    sc = [(d, ctx.rng.getrandbits(32)) for d in scenario_list(ctx, "quick")]
+    sc += [({"k": "random", "rtd": [0, None][i % 2], "hidden": (i // 2) % 2 == 1}, ctx.rng.getrandbits(32)) for i in range(120)]
     run_all(ctx, sc, False)
 
 
